@@ -242,7 +242,7 @@ func (b *Built) valueAgrees(want Val, got xsel.Result) (bool, string) {
 
 // orderOK: C03 -- duplicate-free, only nodes of the document, strictly monotone in
 // document order (ids and Pos), ascending when required
-func (b *Built) orderOK(e *Expr, got xsel.Result) (bool, string) {
+func (b *Built) orderOK(e *Expr, got xsel.Result, env *Env) (bool, string) {
 	g, ok := got.(xsel.NodeSet)
 	if !ok {
 		return true, ""
@@ -279,7 +279,7 @@ func (b *Built) orderOK(e *Expr, got xsel.Result) (bool, string) {
 	if !asc && !dsc {
 		return false, fmt.Sprintf("result %v is neither ascending nor descending", ids)
 	}
-	if !asc && (e.Op == "union" || !usesReverseAxis(e)) {
+	if !asc && (e.Op == "union" || !(usesReverseAxis(e) || mayHandOnOrder(e, env))) {
 		return false, fmt.Sprintf("result %v is not in ascending document order", ids)
 	}
 	return true, ""
